@@ -208,7 +208,9 @@ def enc(v):
     if isinstance(v, list):
         return [enc(x) for x in v]
     if isinstance(v, dict):
-        return {k: enc(x) for k, x in v.items()}
+        if all(isinstance(k, str) for k in v):
+            return {k: enc(x) for k, x in v.items()}
+        return {"$dict": [[enc(k), enc(x)] for k, x in v.items()]}      # keys that are no text
     return {"$repr": repr(v)}
 
 
@@ -216,6 +218,8 @@ def dec(v):
     if isinstance(v, list):
         return [dec(x) for x in v]
     if isinstance(v, dict):
+        if "$dict" in v:
+            return {(tuple(dec(k)) if isinstance(dec(k), list) else dec(k)): dec(x) for k, x in v["$dict"]}
         if "$f" in v:
             return float(v["$f"])
         if "$dt" in v:
